@@ -229,6 +229,28 @@ func runC05(env *lib.Env, rep *lib.Report) {
 					r.check(qw, &qQuery{items: star, from: from, orderBy: s, limit: lo[0], offset: lo[1], limitFirst: lo[2] == 1}, "limit-offset", "")
 				}
 			}
+			// (6) queries longer than the scanner's 1024-byte read buffer: a long AND/OR chain followed by ORDER BY
+			// and LIMIT/OFFSET, shifted blank by blank so that each trailing keyword straddles a refill boundary
+			if len(rows) >= 2 {
+				for _, target := range []int{960, 1990} {
+					var as []qAtom
+					var ors []bool
+					cond := &qCond{}
+					for i := 0; len(cond.sql()) < target; i++ {
+						as = append(as, []qAtom{{qc("", "a"), ql(int64(1)), ">="}, {qc("", "c"), ql("x"), "="}, {qc("", "b"), qc("", "a"), ">="}}[i%3])
+						if i > 0 {
+							ors = append(ors, i%5 == 0)
+						}
+						cond = &qCond{atoms: as, ors: ors}
+					}
+					// the statement head is 22 bytes: the trailing ORDER BY ... LIMIT ... OFFSET region starts just
+					// before a refill boundary and is pushed across it one byte at a time
+					for shift := 0; shift <= 70; shift++ {
+						r.check(qw, &qQuery{items: star, from: from, where: cond, orderBy: []qSort{{qRef{"", "b"}, "DESC"}, {qRef{"", "d"}, ""}}, limit: 2, offset: 1, limitFirst: true,
+							lead: fmt.Sprintf("%*s", shift, "")}, "long-query", "")
+					}
+				}
+			}
 			// (5) projected + aliased + ordered by alias / by name + window
 			for _, l := range [][]qItem{
 				{{kind: "col", col: qRef{"", "c"}, alias: "y"}, {kind: "col", col: qRef{"", "a"}}},
